@@ -137,6 +137,8 @@ class C01(WithEL):
             scn["profile"]["offsets"] = [0, 0, 1, 512, 1024, 1024, 2048, -1, -1, -512]
             if scn["cfg"]["duration"] is not None:
                 scn["cfg"]["duration"] += 2 ** 31
+        elif r.random() < 0.25:
+            scn = simgen.make_fine(scn)
         return scn
 
     def obs(self, case, res):
@@ -211,6 +213,69 @@ class C01(WithEL):
 
 
 # ------------------------------------------------------------------------------------------------
+def run_custom_handler_case(case):
+    """A user-written handler (public INodeHandler API) that schedules follow-up work on the injected
+    event loop from its after-step hook - also from the step that emptied the queue. Outside the Lean
+    model (its hooks do nothing there): judged by the direct predicate only."""
+    from gradysim.protocol.interface import IProtocol
+    from gradysim.simulator.handler.interface import INodeHandler
+    from gradysim.simulator.handler.timer import TimerHandler
+    from gradysim.simulator.simulation import SimulationBuilder, SimulationConfiguration
+    accepted, executed, refused = [], [], []
+
+    class Deferred(INodeHandler):
+        @staticmethod
+        def get_label():
+            return "deferred"
+
+        def inject(self, event_loop):
+            self.loop = event_loop
+
+        def register_node(self, node):
+            pass
+
+        def after_simulation_step(self, iteration, timestamp):
+            for delay in case["script"].get(str(iteration), []):
+                name = f"job{len(accepted) + len(refused)}@{iteration}"
+                try:
+                    self.loop.schedule_event(timestamp + delay / TICK, lambda n=name: executed.append(n), name)
+                    accepted.append(name)
+                except Exception:
+                    refused.append(name)
+
+    class P(IProtocol):
+        def initialize(self):
+            for t in case["timers"]:
+                self.provider.schedule_timer(f"t{t}", t / TICK)
+                accepted.append(f"t{t}")
+
+        def handle_timer(self, timer):
+            executed.append(timer)
+
+        def handle_packet(self, message): pass
+        def handle_telemetry(self, telemetry): pass
+        def finish(self): pass
+
+    crash = None
+    try:
+        b = SimulationBuilder(SimulationConfiguration(execution_logging=False, max_iterations=500))
+        for h in (case["order"] and [Deferred(), TimerHandler()] or [TimerHandler(), Deferred()]):
+            b.add_handler(h)
+        b.add_node(P, (0.0, 0.0, 0.0))
+        sim = b.build()
+        simimpl.quiet_logging()
+        if case["stepped"]:
+            while sim.step_simulation():
+                pass
+        else:
+            sim.start_simulation()
+    except Exception as e:
+        crash = f"{type(e).__name__}: {e}"
+    finally:
+        simimpl.quiet_logging()
+    return {"accepted": accepted, "executed": executed, "refused": refused, "crash": crash}
+
+
 class C02(WithEL):
     prop = "C02"
     level_text = ("Theorems: for every EventLoop API history popped++queued++dropped is a permutation of the accepted "
@@ -229,6 +294,73 @@ class C02(WithEL):
 
     def tweak(self, r, scn):
         return scn
+
+    def generate(self, seed, tier):
+        n = 40 if tier == "quick" else 1500
+        for i in range(n):
+            r = random.Random(stable_hash("custom", seed, i))
+            k = r.randint(1, 4)
+            timers = sorted({r.choice([0, 512, 1024, 2048, 3072]) for _ in range(k)})
+            # iterations after which the handler defers work; the LAST timer's iteration is always there
+            its = {str(len(timers) - 1): [r.choice([0, 512, 1024])]}
+            for _ in range(r.randint(0, 3)):
+                its.setdefault(str(r.randint(0, len(timers) + 3)), []).append(r.choice([0, 0, 512, 2048]))
+            yield {"kind": "custom", "timers": timers, "script": its, "order": r.random() < 0.5,
+                   "stepped": r.random() < 0.5, "label": f"custom/{seed}/{i}"}
+        yield from super().generate(seed, tier)
+
+    def run_impl(self, case):
+        if case.get("kind") == "custom":
+            return run_custom_handler_case(case)
+        return super().run_impl(case)
+
+    def model_input(self, case, impl):
+        if case.get("kind") == "custom":
+            return None
+        return super().model_input(case, impl)
+
+    def oracle(self, case, impl):
+        if case.get("kind") != "custom":
+            return super().oracle(case, impl)
+        fails = []
+        if impl["crash"]:
+            return [("C02:crash:" + impl["crash"].split(":")[0], impl["crash"])]
+        acc, ex = Counter(impl["accepted"]), Counter(impl["executed"])
+        for name in acc:
+            if ex[name] != acc[name]:
+                fails.append(("C02:lost" if ex[name] < acc[name] else "C02:duplicate-or-invented",
+                              f"run to exhaustion with a handler deferring work from its after-step hook: accepted request "
+                              f"{name} executed {ex[name]} time(s); accepted {sorted(acc)} executed {sorted(ex)}"))
+        for name in ex:
+            if name not in acc:
+                fails.append(("C02:duplicate-or-invented", f"callback {name} ran but was never accepted"))
+        return fails
+
+    def nontrivial(self, case, impl):
+        if case.get("kind") == "custom":
+            return len(impl["accepted"]) >= 3
+        return super().nontrivial(case, impl)
+
+    def key(self, case, impl):
+        if case.get("kind") == "custom":
+            return str(case["timers"]) + str(case["script"])
+        return super().key(case, impl)
+
+    def sample(self, case, impl):
+        if case.get("kind") == "custom":
+            return {"label": case["label"], "timers": case["timers"], "script": case["script"], "executed": impl["executed"]}
+        return super().sample(case, impl)
+
+    def stats(self, case, impl, acc):
+        if case.get("kind") == "custom":
+            acc["custom_handler_runs"] = acc.get("custom_handler_runs", 0) + 1
+            return
+        super().stats(case, impl, acc)
+
+    def shrink(self, case, still_fails):
+        if case.get("kind") == "custom":
+            return case
+        return super().shrink(case, still_fails)
 
     def obs(self, case, res):
         cbs = parse(res["trace"])
@@ -318,7 +450,7 @@ class C03(WithEL):
     rule = ("tie-heavy EventLoop histories (2-3 timestamps, bursts, removals in between) + simulations with bursts of "
             "same-instant timers and sends on one link; non-trivial = a tie group of size >= 4")
     profile = {"offsets": [0, 0, 1024, 1024, 1024, 2048, 2048], "maxReq": 5, "budget": 80,
-               "w": {"setTimer": 6, "cancelTimer": 0, "send": 5, "broadcast": 2, "goto": 0.3, "setSpeed": 0,
+               "w": {"setTimer": 6, "cancelTimer": 1, "send": 5, "broadcast": 2, "goto": 0.3, "setSpeed": 0,
                      "setRange": 0, "gotoGeo": 0}}
     force_cfg = {"hasTimer": True, "failRate": fbits(0.0), "defaultRange": fbits(100000.0)}
 
@@ -549,6 +681,15 @@ class C05(SimCheck):
     def tweak(self, r, scn):
         if scn["drive"]["mode"] == "steps":
             scn["drive"]["n"] = r.choice([1, 3, 12, 80, 400, 600])
+        if r.random() < 0.12:
+            # zero-event runs: nothing is due before the run ends, observed with extra steps
+            scn["cfg"]["maxIter"] = 0 if r.random() < 0.5 else scn["cfg"]["maxIter"]
+            if scn["cfg"]["maxIter"] != 0:
+                scn["cfg"]["duration"] = 0
+                scn["profile"]["offsets"] = [1024, 2048, 3072]
+                simgen.set_handler(scn["cfg"], "mobility", False)
+            scn["drive"] = {"mode": "steps", "n": r.choice([2, 3, 5])}
+            scn["simOptions"] = {"profile": r.random() < 0.6}
         return scn
 
     def obs(self, case, res):
@@ -825,7 +966,7 @@ class C12(SimCheck):
     force_cfg = {"hasMob": True, "hasTimer": True, "failRate": fbits(0.0), "defaultRange": fbits(1.0e6)}
     want_pos = True
     profile = {"w": {"setTimer": 2, "cancelTimer": 0, "send": 1, "broadcast": 0.5, "goto": 4, "setSpeed": 1.5,
-                     "setRange": 0, "gotoGeo": 0}, "pTelemetry": 0.2}
+                     "setRange": 0, "gotoGeo": 0, "gotoHere": 2}, "pTelemetry": 0.25}
 
     def tweak(self, r, scn):
         return scn
@@ -858,6 +999,15 @@ class C12(SimCheck):
             for node in range(n):
                 if got[node] > 1 or (got[node] == 0 and not (lastgroup and cut)):
                     fails.append(("C12:count", f"node {node} got {got[node]} telemetry callbacks for the update at {t}"))
+        # a run cut by the duration alone delivers the telemetry of every update due up to and
+        # including the duration (events due exactly at the duration still run)
+        D = cfg["duration"]
+        if not cut and D is not None and case["drive"]["mode"] == "start" and is_int(D) and dt > 0 \
+                and not case["drive"].get("pre"):
+            want = D // dt
+            if len(times) != want:
+                fails.append(("C12:last-update", f"duration {D}, interval {dt}: {want} updates fall within the run but "
+                              f"telemetry was delivered for {len(times)} ({times[-3:]})"))
         # own position: the payload equals the node's position when the telemetry is handled
         for node, t, payload, own in impl.get("ownPos", []):
             if payload != own:
